@@ -16,15 +16,30 @@ CInitBuf    == CInitCommon /\ Mode = "buf"
 CInitAsync  == CInitCommon /\ Mode = "async"
 
 \* An arbitrary state satisfying IndInv.  Integers (cnt, clones, ops) are unbounded; the
-\* containers are bounded by the generators: Len(file), Len(wbuf), Len(q) <= 4 and
-\* |acked|, |ackAtShut|, |ackAtFlush|, |lostOk| <= 6  (see README.md, "What is assumed").
+\* containers are bounded by the generators: Len(file), Len(wbuf), Len(q) <= 5 and
+\* |acked|, |ackAtShut|, |ackAtFlush|, |lostOk| <= 8  (see README.md, "What is assumed").
 GenState ==
     /\ pc = Gen(3) /\ cnt = Gen(3)
-    /\ file = Gen(4) /\ wbuf = Gen(4) /\ q = Gen(4)
+    /\ file = Gen(5) /\ wbuf = Gen(5) /\ q = Gen(5)
     /\ alive \in BOOLEAN /\ joinable \in BOOLEAN /\ flushed \in BOOLEAN
     /\ clones \in Nat /\ ops \in Nat
     /\ app \in {"run", "shutting", "down"}
-    /\ acked = Gen(6) /\ ackAtShut = Gen(6) /\ ackAtFlush = Gen(6) /\ lostOk = Gen(6)
+    /\ acked = Gen(8) /\ ackAtShut = Gen(8) /\ ackAtFlush = Gen(8) /\ lostOk = Gen(8)
 
 IndInit == GenState /\ IndInv
+
+(***************************************************************************)
+(* Sanity checks of the method (run.sh expects a VIOLATION for each).      *)
+(***************************************************************************)
+\* non-vacuity: IndInit has rich states (3 producers, full containers, shutdown under way / completed);
+\* run.sh checks NoWitness* as an "invariant" of IndInit and expects a counterexample
+NoWitnessAsync  == ~(/\ Cardinality(Producers) = 3 /\ Len(file) = 5 /\ Len(q) = 5 /\ app = "shutting" /\ alive
+                     /\ Cardinality(ackAtShut) >= 6 /\ \E p \in Producers : pc[p] = "formatted" /\ cnt[p] > 1000)
+NoWitnessBuf    == ~(/\ Cardinality(Producers) = 3 /\ Len(file) = 5 /\ Len(wbuf) = 3 /\ app = "down" /\ flushed
+                     /\ Cardinality(ackAtShut) >= 4 /\ \E p \in Producers : pc[p] = "formatted" /\ cnt[p] > 1000)
+NoWitnessDirect == ~(/\ Cardinality(Producers) = 3 /\ Len(file) = 5 /\ app = "down" /\ flushed
+                     /\ Cardinality(ackAtShut) >= 4 /\ \E p \in Producers : pc[p] = "formatted" /\ cnt[p] > 1000)
+\* mutant: the code as found (dropping any clone shuts the writers down): IndInv must NOT be inductive
+CInitAsyncAsCoded == /\ Producers \in SUBSET {1, 2, 3} /\ PerProducer \in Nat /\ MaxAppOps \in Nat
+                     /\ Fixes = {} /\ Mode = "async"
 =============================================================================
